@@ -349,7 +349,7 @@ fn ser_streams(driver: &Driver, seed: u64, from: u64, to: u64, witness_only: Opt
 }
 
 /// totality beyond the round-trip domain: names from every plane (U+0000 too), NaN, ±inf
-fn total_extra(seed: u64, n: u64, tot: &mut Oracle) {
+fn total_extra(seed: u64, from: u64, to: u64, tot: &mut Oracle) {
     fn poison(v: &mut Val, rng: &mut Rng) {
         match v {
             Val::Real(t) => if rng.chance(1, 3) { *t = format!("#{:08x}", *rng.pick(&[f32::NAN.to_bits(), f32::INFINITY.to_bits(), f32::NEG_INFINITY.to_bits(), 0xffc0_0001u32, 0x7f80_0001])); },
@@ -358,7 +358,7 @@ fn total_extra(seed: u64, n: u64, tot: &mut Oracle) {
             _ => {}
         }
     }
-    for case in 0..n {
+    for case in from..to {
         let mut rng = Rng::derive(seed, "c04.total", case);
         let (mut v, _) = gen_value(&mut rng, &WILD);
         if case % 3 == 0 { v = Val::Arr(vec![v, real_val(1.0), Val::Real("#7fc00000".into())]); }
@@ -518,7 +518,7 @@ pub fn run(driver: &Driver, seed: u64, thorough: bool, replay: Option<&Value>) -
         }
         let (sts, ors) = match stream {
             "c04.witness" => ser_streams(driver, seed, 0, 0, Some(case), true),
-            "c04.total" => { let mut tot = Oracle::new("c04.total"); total_extra(seed, case + 1, &mut tot); (vec![], vec![tot]) }
+            "c04.total" => { let mut tot = Oracle::new("c04.total"); total_extra(seed, case, case + 1, &mut tot); (vec![], vec![tot]) }
             _ => ser_streams(driver, seed, case, case + 1, None, false),
         };
         rep.streams.extend(sts);
@@ -528,7 +528,7 @@ pub fn run(driver: &Driver, seed: u64, thorough: bool, replay: Option<&Value>) -
     let k: u64 = if thorough { 60 } else { 1 };
     let (sts, mut ors) = ser_streams(driver, seed, 0, 40000 * k, None, true);
     rep.streams.extend(sts);
-    total_extra(seed, 40000 * k, &mut ors[1]);
+    total_extra(seed, 0, 40000 * k, &mut ors[1]);
     rep.oracles.extend(ors);
     rep.streams.push(f32_stream(seed, thorough));
     rep.notes.push("c04.f32 validates ASSUMPTIONS of the model, not theorems: H1 `f32::to_string` of a finite value has the shape -?[0-9]+(\\.[0-9]+)?; H2 `str::parse::<f32>` of that text (and of the text with a `.` appended when it has none) gives back the same bits; H3 every variant the C03 printer's `real_tok` derives from it (sign `+`, 0-2 leading zeros, 0-2 trailing zeros, dropped zero integer part) parses to the same bits. quick: stride sample + boundaries; thorough: all 2^32 patterns (H3 on 1/64 of them)".into());
